@@ -434,6 +434,7 @@ def record_field_index(fns, what):
 
 
 UPDATE_WITNESSES = [("(b) ts_new", "c07_guarded_timestamp_check"), ("publishes nothing", "c01_failed_overwrite_is_harmless"),
+                    ("published timestamp is observed", "c01_failed_overwrite_is_harmless+c12_version_clock_model"), ("version clock", "c01_failed_overwrite_is_harmless+c12_version_clock_model"),
                     ("only after the memory reservation", "c01_failed_overwrite_is_harmless"), ("(e) ordered index", "c11_ttl_publish"),
                     ("(c)", "c13_update_accounting"), ("", "c13_update_accounting")]
 
@@ -1854,6 +1855,7 @@ def c17(fns, tier, env):
                       "no out-of-range slice of the slot (incl. the checksum image `data[..checksum_len]`), no failing fixed-size conversion, no out-of-bounds pair access",
                       "slot length = 3 blocks (the caller's contract); one arbitrary iteration of each loop (for index in 0..count with 0 <= index < count)",
                       pre=pre_slot, inline=("::journal_image_size",), witness="c17_journal_forged_count")]
+    out += scan_iteration(fns, panics=True)
     return finalize(out, env)
 
 
@@ -2386,6 +2388,71 @@ def site_evict_running_usage(fns):
     return ob.result(it, witness="c16_eviction_stops_at_low_watermark")
 
 
+def site_evict_clock_policy(fns):
+    """CLOCK second chance, one ARBITRARY step of the innermost loop (state havocked at its header, usage > low watermark assumed and re-established)"""
+    f = mir.find(fns, "::evict_entries", "src/core/cache.rs")
+    ob = Ob("site_evict_entries_clock_policy", "ClockCache::evict_entries, one ARBITRARY step of the bucket sweep (all locals havocked at the inner loop header; invariant: the running usage is "
+            "above the low watermark, re-established on every path that continues the sweep): the entry under the hand is evicted only if ITS reference bit was read as clear – the removed "
+            "index is the inspected index and the index is not advanced; an entry whose bit is set is never removed in that step: its bit is cleared (second chance) and the index advances "
+            "by one; the sweep continues only while usage is still above the low watermark, so nothing is evicted (and no reference bit stripped) once the watermark is reached",
+            "one iteration of the innermost loop from an arbitrary state", f)
+    need = ("i", "current_usage", "target_usage")
+    if any(n not in f.debug for n in need):
+        raise mir.MirError("evict_entries locals not found")
+    il, cul, tl = f.debug["i"], f.debug["current_usage"], f.debug["target_usage"]
+    hdr = None
+    for bb, st in f.blocks.items():
+        if any(re.match(r"_\d+ = copy %s;$" % il, x.strip()) for x in st[:1]) and "Deref>::deref" in st[-1]:
+            hdr = bb
+    if hdr is None:
+        raise mir.MirError("inner sweep loop header not found")
+    it = Interp(f, loop_bound=1, pure=PURE, max_paths=4000)
+    i0, cu0, tg = z3.BitVec("i0", 64), z3.BitVec("usage0", 64), z3.BitVec("low_watermark", 64)
+
+    def init(it_, st):
+        st["env"][il] = i0
+        st["env"][cul] = cu0
+        st["env"][tl] = tg
+        st["pc"].append(z3.UGT(cu0, tg))
+    evicted = spared = 0
+    for p in it.run(init, start=hdr, stop=(hdr,)):
+        ob.paths += 1
+        if p.status == "truncated":
+            ob.truncated += 1
+        if p.status not in ("backedge", "return"):
+            continue
+        idx = [e for e in p.events if e.kind == "call" and "Index<usize>>::index" in e.callee and e.callee.startswith("<Vec<CacheEntry> as")]
+        loads = [e for e in events(p, "Atomic::load") if z3.is_bool(e.ret)]
+        rem = events(p, "Vec::remove")
+        stores = [e for e in events(p, "Atomic::store") if len(e.args) > 1 and z3.is_bool(e.args[1])]
+        i1, cu1 = p.env.get(il), p.env.get(cul)
+        if p.status == "backedge":
+            ob.need(it, p.pc, z3.UGT(cu1, tg), "the sweep continues within a bucket only while the running usage is above the low watermark")
+        if rem:
+            evicted += 1
+            if not ob.must_hold(len(idx) == 1 and len(loads) == 1 and len(rem) == 1, "one entry inspected and at most one removed per step"):
+                continue
+            ob.need(it, rem[0].pc, z3.Not(loads[0].ret), "an entry is evicted only if its reference bit was read as clear")
+            ob.must_hold(contains(loads[0].args[0], it.as_u(idx[0].ret)), "the bit that was read is the inspected entry's")
+            ob.need(it, rem[0].pc, z3.And(idx[0].args[1] == i0, rem[0].args[1] == i0), "the removed index is the inspected index i")
+            ob.must_hold(z3.eq(it.as_u(rem[0].args[0]), it.as_u(idx[0].args[0])), "removal from the bucket that was inspected")
+            if p.status == "backedge":
+                ob.need(it, p.pc, i1 == i0, "after a removal the index is not advanced (the next entry moved into slot i)")
+            ob.must_hold(not stores, "no reference bit is written in an evicting step")
+        elif idx:
+            spared += 1
+            if not ob.must_hold(len(loads) == 1, "the reference bit is read once"):
+                continue
+            ob.need(it, p.pc, loads[0].ret, "an entry is kept in this step only because its reference bit was set")
+            if ob.must_hold(len(stores) == 1 and contains(stores[0].args[0], it.as_u(idx[0].ret)), "second chance: the inspected entry's reference bit is cleared"):
+                ob.need(it, p.pc, z3.Not(stores[0].args[1]), "the bit is cleared, not set")
+            if p.status == "backedge":
+                ob.need(it, p.pc, i1 == i0 + 1, "a spared entry is stepped over: i += 1")
+            ob.need(it, p.pc, cu1 == cu0, "sparing an entry does not change the running usage") if z3.is_bv(cu1) else None
+    ob.must_hold(evicted >= 1 and spared >= 1, "evicting and sparing steps were reached (%d/%d)" % (evicted, spared))
+    return ob.result(it, witness="c16_eviction_stops_at_low_watermark")
+
+
 # ============================================================================ io.rs: journaled retirement and journal/metadata slot protocol
 IO_HINT = "src/storage/io.rs"
 
@@ -2584,7 +2651,7 @@ def site_flush_pending_deletions(fns):
 
 # ============================================================================ C16: cache accounting deltas
 def c16(fns, tier, env):
-    return finalize([site_cache_insert(fns), site_cache_remove(fns), site_cache_lookups_tagged(fns), site_evict_running_usage(fns), site_compare_and_swap(fns), site_resolve_expiry(fns)], env)
+    return finalize([site_cache_insert(fns), site_cache_remove(fns), site_cache_lookups_tagged(fns), site_evict_running_usage(fns), site_evict_clock_policy(fns), site_compare_and_swap(fns), site_resolve_expiry(fns)], env)
 
 
 def c05(fns, tier, env):
@@ -2758,7 +2825,7 @@ def scan_iteration(fns, panics=False):
             st["pc"].append(z3.ULE(amb0, s0))
             # the device size is a u64 byte count, so there are at most 2^52 blocks
             st["pc"].append(z3.ULT(total, z3.BitVecVal(1 << 52, 64)))
-    accepted = discarded = replaced_n = gap_paths = 0
+    accepted = discarded = replaced_n = gap_paths = amb_checked = 0
     ts_idx = record_field_index(fns, "timestamp")
     pob = Ob("c17_scan_iteration_panic_free", "recovery scan, one ARBITRARY iteration on ARBITRARY block contents (every byte and every value parsed out of the device is "
              "havocked; block slices have arbitrary length): no arithmetic-overflow panic, no out-of-range index or slice of the block buffer, no failing fixed-size "
@@ -2811,6 +2878,12 @@ def scan_iteration(fns, panics=False):
         if p.status != "backedge":
             continue
         end = p.env.get(sector_local)
+        if panics:
+            aw = [e for e in p.events if e.kind == "write" and e.callee.endswith(".%d" % amb_idx) and z3.is_bv(e.args[1]) and e.args[1].size() == 64
+                  and z3.is_expr(e.args[0]) and z3.eq(it.as_u(e.args[0]), self_)]
+            if aw:
+                amb_checked += 1
+                pob.need(it, p.pc, z3.ULE(aw[-1].args[1], end), "assumed invariant re-established: ambiguous-marker counter <= sector after the iteration")
         ob.need(it, p.pc, z3.UGT(end, s0), "progress: sector strictly increases per iteration")
         obs = events(p, "VersionClock::observe")
         dc = events(p, "div_ceil")
@@ -2911,6 +2984,7 @@ def scan_iteration(fns, panics=False):
     ob.must_hold(discarded >= 1 and replaced_n >= 1, "the discard and the replace paths were reached")
     ob.must_hold(gap_paths >= 2, "indexing paths with and without a gap were reached")
     if panics:
+        pob.must_hold(amb_checked >= 1, "the marker counter invariant was re-established on the path that increments it")
         pob.must_hold(len(seen) >= 10, "panic sites were reached (%d)" % len(seen))
         return [pob.result(None, witness="c17_scan_hostile_blocks")]
     return ob.result(it, witness=[("last_end", "c05_recovery_rebuilds_free_space"), ("gap", "c05_recovery_rebuilds_free_space"), ("ceil(total_size", "c04_recovery_repairs_only_dead_blocks"), ("derived from total_size", "c04_recovery_repairs_only_dead_blocks"),
